@@ -5,7 +5,8 @@ REGISTRY: list = []
 
 
 class Harness:
-    def __init__(self, fn, prop, name, cases, tier, float_mode, subst, feas_ms, check_ms, kind, fp_refute, quick=None, state_only=False, budget_s=None, stubs=None, vacuous_ok=None):
+    def __init__(self, fn, prop, name, cases, tier, float_mode, subst, feas_ms, check_ms, kind, fp_refute, quick=None, state_only=False, budget_s=None, stubs=None, vacuous_ok=None, heavy=None):
+        self.heavy = heavy  # predicate over a case: expected to be slow -> scheduled first
         self.vacuous_ok = vacuous_ok  # predicate over a case: an empty domain is legitimate there (reported)
         self.stubs = stubs or {}  # environment-boundary callees replaced by their contract in BOTH modes
         self.fn = fn
@@ -36,9 +37,9 @@ class Harness:
 
 def harness(prop, name=None, cases=None, tier="quick", float_mode="real", subst=None,
             feas_ms=1500, check_ms=20000, kind="contract", fp_refute=False, quick=None,
-            state_only=False, budget_s=None, stubs=None, vacuous_ok=None):
+            state_only=False, budget_s=None, stubs=None, vacuous_ok=None, heavy=None):
     def deco(fn):
-        h = Harness(fn, prop, name, cases, tier, float_mode, subst, feas_ms, check_ms, kind, fp_refute, quick, state_only, budget_s, stubs, vacuous_ok)
+        h = Harness(fn, prop, name, cases, tier, float_mode, subst, feas_ms, check_ms, kind, fp_refute, quick, state_only, budget_s, stubs, vacuous_ok, heavy)
         REGISTRY.append(h)
         fn.__harness__ = h
         return fn
@@ -61,5 +62,23 @@ class NativeCheck:
 def native(prop, name=None, tier="quick"):
     def deco(fn):
         NATIVE.append(NativeCheck(fn, prop, name, tier))
+        return fn
+    return deco
+
+
+STRUCTURAL: list = []
+
+
+class Structural:
+    """Obligations decided on the syntax of the current tree (frame / purity / handler-set /
+    control-flow conditions): fn() -> [(label, ok, detail)].  Back end: 'syntactic'."""
+
+    def __init__(self, fn, prop, name):
+        self.fn, self.prop, self.name = fn, prop, name or fn.__name__
+
+
+def structural(prop, name=None):
+    def deco(fn):
+        STRUCTURAL.append(Structural(fn, prop, name))
         return fn
     return deco
